@@ -1,7 +1,9 @@
 /-
-  Proofs.C06Scalar — Python `==` on scalars is an equivalence; tuples of scalars (`keyEq`).
+  Proofs.C06Scalar — Python `==` on scalars and, more generally, on keyable values (anything but an
+  array, documents with pairwise distinct keys) is an equivalence; tuples of them (`keyEq`).
 -/
 import Spec.Unique
+import Proofs.C05Wf
 import Mathlib.Tactic.LinearCombination
 
 namespace MongoModel.Proofs.C06Lemmas
@@ -132,6 +134,41 @@ theorem pyEq_null_right {x : Val} (hx : isScalar x = true) : pyEq x .null = isNu
 theorem pyEq_null_left (x : Val) : pyEq .null x = isNull x := by
   cases x <;> simp [pyEq, isNull]
 
+/-! ### keyable values (`Spec.isKeyable`): what an index key may hold in the domain of C06 -/
+
+theorem isKeyable_wf {x : Val} (h : isKeyable x = true) : wfVal x = true := by
+  simp only [isKeyable, Bool.and_eq_true] at h; exact h.2
+
+theorem isKeyable_notArr {x : Val} (h : isKeyable x = true) : x.isArr = false := by
+  simp only [isKeyable, Bool.and_eq_true, Bool.not_eq_true'] at h; exact h.1
+
+theorem isKeyable_of_scalar {x : Val} (h : isScalar x = true) : isKeyable x = true := by
+  cases x <;> simp [isScalar] at h <;> simp [isKeyable, Val.isArr, wfVal]
+
+theorem isKeyable_null : isKeyable .null = true := rfl
+
+theorem pyEq_refl_keyable {x : Val} (h : isKeyable x = true) : pyEq x x = true :=
+  C05Lemmas.pyEq_refl_wf x (isKeyable_wf h)
+
+theorem pyEq_symm_keyable {x y : Val} (hx : isKeyable x = true) (hy : isKeyable y = true) :
+    pyEq x y = pyEq y x :=
+  C05Lemmas.pyEq_symm_wf x y (isKeyable_wf hx) (isKeyable_wf hy)
+
+/-- `==`-equal keyable values compare alike against any third value -/
+theorem pyEq_congr_left_keyable {x y : Val} (z : Val) (hx : isKeyable x = true)
+    (hy : isKeyable y = true) (h : pyEq x y = true) : pyEq x z = pyEq y z := by
+  apply Bool.eq_iff_iff.mpr
+  constructor
+  · intro h2
+    exact C05Lemmas.pyEq_trans y x z (by rw [pyEq_symm_keyable hy hx]; exact h) h2
+  · intro h2
+    exact C05Lemmas.pyEq_trans x y z h h2
+
+theorem pyEq_null_right_keyable {x : Val} (_hx : isKeyable x = true) : pyEq x .null = isNull x := by
+  cases x with
+  | date u o => cases o <;> simp [pyEq, isNull]
+  | _ => simp [pyEq, isNull]
+
 /-! ### tuples -/
 
 @[simp] theorem keyEq_nil : keyEq [] [] = true := rfl
@@ -147,30 +184,30 @@ theorem pyEqList_eq_keyEq (s t : List Val) : pyEqList s t = keyEq s t := by
   | nil => cases t <;> simp [pyEqList]
   | cons x xs ih => cases t <;> simp [pyEqList, ih]
 
-def AllScalar (l : List Val) : Prop := ∀ v ∈ l, isScalar v = true
+def AllKeyable (l : List Val) : Prop := ∀ v ∈ l, isKeyable v = true
 
-theorem AllScalar.tail {x : Val} {xs : List Val} (h : AllScalar (x :: xs)) : AllScalar xs :=
+theorem AllKeyable.tail {x : Val} {xs : List Val} (h : AllKeyable (x :: xs)) : AllKeyable xs :=
   fun v hv => h v (List.mem_cons_of_mem _ hv)
 
-theorem AllScalar.head {x : Val} {xs : List Val} (h : AllScalar (x :: xs)) : isScalar x = true :=
+theorem AllKeyable.head {x : Val} {xs : List Val} (h : AllKeyable (x :: xs)) : isKeyable x = true :=
   h x (List.mem_cons_self ..)
 
-theorem keyEq_refl {l : List Val} (h : AllScalar l) : keyEq l l = true := by
+theorem keyEq_refl {l : List Val} (h : AllKeyable l) : keyEq l l = true := by
   induction l with
   | nil => rfl
-  | cons x xs ih => simp [pyEq_refl_scalar h.head, ih h.tail]
+  | cons x xs ih => simp [pyEq_refl_keyable h.head, ih h.tail]
 
-theorem keyEq_symm {a b : List Val} (ha : AllScalar a) (hb : AllScalar b) :
+theorem keyEq_symm {a b : List Val} (ha : AllKeyable a) (hb : AllKeyable b) :
     keyEq a b = keyEq b a := by
   induction a generalizing b with
   | nil => cases b <;> simp
   | cons x xs ih =>
     cases b with
     | nil => simp
-    | cons y ys => simp [pyEq_symm_scalar ha.head hb.head, ih ha.tail hb.tail]
+    | cons y ys => simp [pyEq_symm_keyable ha.head hb.head, ih ha.tail hb.tail]
 
-theorem keyEq_congr_left {a a' t : List Val} (ha : AllScalar a) (ha' : AllScalar a')
-    (ht : AllScalar t) (h : keyEq a a' = true) : keyEq a t = keyEq a' t := by
+theorem keyEq_congr_left {a a' : List Val} (t : List Val) (ha : AllKeyable a) (ha' : AllKeyable a')
+    (h : keyEq a a' = true) : keyEq a t = keyEq a' t := by
   induction a generalizing a' t with
   | nil => cases a' <;> simp_all
   | cons x xs ih =>
@@ -181,9 +218,9 @@ theorem keyEq_congr_left {a a' t : List Val} (ha : AllScalar a) (ha' : AllScalar
       cases t with
       | nil => simp
       | cons z zs =>
-        simp [pyEq_congr_left ha.head ha'.head ht.head h.1, ih ha.tail ha'.tail ht.tail h.2]
+        simp [pyEq_congr_left_keyable z ha.head ha'.head h.1, ih zs ha.tail ha'.tail h.2]
 
-theorem keyEq_all_null {a b : List Val} (ha : AllScalar a) (h : keyEq a b = true)
+theorem keyEq_all_null {a b : List Val} (ha : AllKeyable a) (h : keyEq a b = true)
     (hb : b.all isNull = true) : a.all isNull = true := by
   induction a generalizing b with
   | nil => rfl
@@ -194,6 +231,6 @@ theorem keyEq_all_null {a b : List Val} (ha : AllScalar a) (h : keyEq a b = true
       simp only [keyEq_cons, Bool.and_eq_true, List.all_cons] at h hb ⊢
       refine ⟨?_, ih ha.tail h.2 hb.2⟩
       cases y <;> simp only [isNull, Bool.false_eq_true, false_and] at hb
-      rw [← pyEq_null_right ha.head]; exact h.1
+      rw [← pyEq_null_right_keyable ha.head]; exact h.1
 
 end MongoModel.Proofs.C06Lemmas
